@@ -129,4 +129,18 @@ theorem backward_spec {s : DSt} {A : Nat → List Nat} {l : Nat} (h : GInv s A) 
       List.reverse_cons, List.reverse_nil, List.nil_append, List.singleton_append]
     exact walk_prev h hl p.length p [] x fuel rfl (by simp [hL]) (by rw [hL] at hf; simp at hf; omega)
 
+/-- The tail-recursive traversal used by the `big` dumps folds over exactly the nodes `walk`
+visits (so `forward_spec`/`backward_spec` apply to the digests as well). -/
+theorem walkFold_eq {α : Type} (step : Nat → Ptr) (f : α → Nat → α) :
+    ∀ (n : Nat) (p : Ptr) (a : α),
+      walkFold step f n p a = ((walk step n p).1.foldl f a, (walk step n p).2) := by
+  intro n
+  induction n with
+  | zero => intro p a; cases p <;> simp [walkFold, walk]
+  | succ n ih =>
+    intro p a
+    cases p with
+    | none => simp [walkFold, walk]
+    | some e => simp [walkFold, walk, ih]
+
 end Golib.C13
